@@ -245,7 +245,19 @@ pub fn oracle_lowered_insertions(t: &Tables, c: &LoweredCase, p: &mut Probe) -> 
     let before = snap(&state);
     let after = match guarded(move || real.perform(state)) {
         Err(panic) => fail!(format!("{name}/panic:{}", panic_key(&panic)), "{name} on a state with maxima lowered below the sizes ({:?}) panicked: {panic}", c.lower),
-        Ok(Err(_)) => return Ok(()), // C02's business
+        Ok(Err(e)) => {
+            // all-or-nothing: an operation that reports a failure leaves the contents of every stack as they were
+            let after = snap(&e.into_state());
+            if !(after.exec == before.exec && after.int == before.int && after.boolean == before.boolean && after.float.len() == before.float.len() && after.float.iter().zip(&before.float).all(|(x, y)| x == y || (f64::from_bits(*x).is_nan() && f64::from_bits(*y).is_nan()))) {
+                fail!(
+                    format!("{name}/contents-changed-by-failing-instruction"),
+                    "{name} reported a failure on a state whose maxima had been lowered below the stack sizes by {:?}, but the stacks are not as they were.\nbefore: {before:?}\nafter:  {after:?}",
+                    c.lower
+                );
+            }
+            p.nontrivial = true;
+            return Ok(());
+        }
         Ok(Ok(s)) => snap(&s),
     };
     fn new_value<T: PartialEq>(before: &[T], after: &[T]) -> bool {
